@@ -102,17 +102,31 @@ package wmpt
 
 // ---- C15: decoders never panic, terminate, and what they accept re-encodes ----
 
+// C10: a branch is weight-consistent when its weight field is the sum (in uint64 arithmetic) of
+// the weights its children report. The owner of a block number is only well-defined for such nodes.
+//@ spec Sum16(r *routingNode) int = (W(r.Children[0]) + W(r.Children[1]) + W(r.Children[2]) + W(r.Children[3]) + W(r.Children[4]) + W(r.Children[5]) + W(r.Children[6]) + W(r.Children[7])
+//@      | + W(r.Children[8]) + W(r.Children[9]) + W(r.Children[10]) + W(r.Children[11]) + W(r.Children[12]) + W(r.Children[13]) + W(r.Children[14]) + W(r.Children[15])) % 18446744073709551616
+//@ pred RCons(r *routingNode) = r.weight == Sum16(r)
+
 //@ func DeserializeNode returns (node, err)
-//@   props C15
+//@   props C15 C10
 //@   mode wrap
 //@   ensures err == nil ==> node != nil && fresh(node)                         #fresh-node
+//@   ensures err == nil && node is *routingNode ==> RCons(node.(*routingNode))   #decoded-branch-is-weight-consistent
+//@   loop 1 invariant forall j :: 0 <= j && j < 16 ==> allocated(branchNode.Children[j]) && (branchNode.Children[j] == nil || branchNode.Children[j] is *hashNode
+//@      | || (branchNode.Children[j] is *shortNode && branchNode.Children[j].(*shortNode).value is *hashNode && allocated(branchNode.Children[j].(*shortNode).value)))      #children-are-claims
+//@   loop 1 invariant RCons(&branchNode) && (forall j :: rangeindex < j && j < 16 ==> branchNode.Children[j] == nil)
 
 //@ func verifyProof returns (node, value, err)
-//@   props C15
+//@   props C15 C10
 //@   mode wrap
 //@   requires persistTrie != nil && ind != nil && *ind >= 0 && *ind <= len(persistTrie.Pairs)
 //@   ensures *ind >= old(*ind) && *ind <= len(persistTrie.Pairs)                 #ind-monotone
 //@   ensures err == nil ==> node != nil && *ind > old(*ind)                      #progress
+// C10: the node rebuilt from the proof is weight-consistent (the child put in place of the claimed
+// one weighs what the parent claims), and the block lies inside the entry it resolves to.
+//@   ensures err == nil && node is *routingNode ==> RCons(node.(*routingNode))   #rebuilt-branch-is-weight-consistent
+//@   ensures err == nil && node is *valueNode ==> block <= node.(*valueNode).weight   #block-inside-the-entry
 //@   decreases len(persistTrie.Pairs) - *ind
 //@   assigns *ind, heap(routingNode.hash), heap(routingNode.dirty), heap(shortNode.hash), heap(shortNode.dirty), heap(valueNode.hash), heap(valueNode.dirty)
 //@   loop 1 invariant *ind > old(*ind) && *ind <= len(persistTrie.Pairs)         #ind-advanced
